@@ -222,7 +222,7 @@ Fixpoint hist_ok (ops : list hop) (d : node) : bool :=
   | op :: r =>
       op_ok op d &&
       match run_op lit fl op d with
-      | Done d' => hist_ok r d'
+      | MDone d' => hist_ok r d'
       | Failed _ _ => true
       end
   end.
@@ -233,7 +233,7 @@ Fixpoint abs_ops (ops : list hop) (d : node) : list pop :=
   | op :: r =>
       abs_op op d ++
       match run_op lit fl op d with
-      | Done d' => abs_ops r d'
+      | MDone d' => abs_ops r d'
       | Failed _ _ => []
       end
   end.
